@@ -17,7 +17,38 @@ pub struct Case {
     pub points: Vec<Vec<f64>>,
 }
 
+/// a graph with 16 or 17 loops (flower of massive self-loops, optionally with a bridge to a second vertex):
+/// loop numbers beyond 15 appear in the table
+fn gen_many_loops(t: &mut Tape) -> Option<Case> {
+    let l = t.range(16, 17);
+    let d = t.range(1, 2);
+    let mut edges: Vec<(u8, u8)> = vec![(0, 0); l];
+    let mut massive = vec![true; l];
+    let mut externals = vec![];
+    if t.bool() {
+        edges.push((0, 1));
+        massive.push(true);
+        externals = vec![0, 1];
+    }
+    let ne = edges.len();
+    let weights: Vec<f64> = (0..ne).map(|_| ((d as f64 / 2.0 + t.uniform(0.1, 1.0)) * 64.0).round() / 64.0).collect();
+    let g = crate::oracle::graph::G { edges, massive, weights, externals, d };
+    let mut sig = vec![vec![0isize; l]; ne];
+    for i in 0..l {
+        sig[i][i] = 1;
+    }
+    let kin = gen::Kin { sig, shifts: (0..ne).map(|e| if e == l { vec![0.7; d] } else { vec![0.0; d] }).collect(), masses: (0..ne).map(|_| t.uniform(0.3, 2.0)).collect(), inflow: if ne > l { vec![(0, vec![0.7; d]), (1, vec![-0.7; d])] } else { vec![] } };
+    let dim = gen::dimension(&g);
+    let point = |t: &mut Tape| -> Vec<f64> { (0..dim).map(|_| t.unit().max(gen::TWO_M53)).collect() };
+    let x = point(t);
+    let points = (0..3).map(|_| point(t)).collect();
+    Some(Case { p: Phys { g, kin, x, classes: vec!["graph:16+loops".into()] }, points })
+}
+
 pub fn gen_case(t: &mut Tape, tier: Tier) -> Option<Case> {
+    if t.chance(tier.pick(0.0004, 0.0002)) {
+        return gen_many_loops(t);
+    }
     let mo = if t.chance(0.3) { 1.0 / 64.0 } else { 0.15 };
     let opts = PhysOpts { max_e: tier.pick(8, 9), max_l: 8, min_omega: mo, dmax: 6, max_ops: 3, profile: gen::SECTOR };
     let p = if t.chance(0.1) { gen::gen_phys_union(t, &opts)? } else { gen::gen_phys(t, &opts)? };
@@ -138,7 +169,7 @@ pub fn check(c: &Case, ctx: &mut Ctx) -> Result<(), Failure> {
 }
 pub fn run(tier: Tier, seed: u64) -> i32 {
     let t0 = Instant::now();
-    let sp = Spec { id: "C18", rule: RULE, tape_len: 900, cases: tier.pick(40_000, 400_000), gen: gen_case, check, max_shrink_iters: 2000, shards: 16 };
+    let sp = Spec { id: "C18", rule: RULE, tape_len: 900, cases: tier.pick(40_000, 400_000), gen: gen_case, check, max_shrink_iters: 60, shards: 16 };
     let mut stats = engine::run_spec(&sp, tier, seed);
     engine::run_regressions::<Case>("C18", check, &mut stats);
     engine::finish("C18", tier, seed, RULE, stats, t0, serde_json::json!({}), &["serde_json (text with float_roundtrip, and its Value tree) as the two self-describing formats that preserve f64 exactly", "identical sampling is established on 13 generated points per sampler, not on all points"])
